@@ -3,6 +3,7 @@
 mod errtree;
 mod c05;
 mod c06;
+mod c07;
 mod c10;
 mod declgen;
 mod c11;
@@ -11,6 +12,7 @@ mod c13;
 mod wrappers_gen;
 mod c14;
 mod c15;
+mod c16;
 mod c17;
 mod c18;
 mod c19;
@@ -28,12 +30,14 @@ fn main() {
         "C03" => errtree::run(&args, errtree::Mode::Spans),
         "C05" => c05::run(&args),
         "C06" => c06::run(&args),
+        "C07" => c07::run(&args),
         "C10" => c10::run(&args),
         "C11" => c11::run(&args),
         "C12" => c12::run(&args),
         "C13" => c13::run(&args),
         "C14" => c14::run(&args),
         "C15" => c15::run(&args),
+        "C16" => c16::run(&args),
         "C17" => c17::run(&args),
         "C18" => c18::run(&args),
         "C19" => c19::run(&args),
